@@ -73,8 +73,8 @@ def do_replay(path):
                  wall=600)
     print(json.dumps(res, indent=1))
     bad = res.get('pre') and not res.get('ok', True)
-    if bad and 'real' in res:
-        bad = bool(res['real'].get('reproduced'))
+    if bad and isinstance(res.get('real'), dict):
+        bad = res['real'].get('reproduced') is not False
     if bad:
         print(f'VIOLATION property={blob["property"]} replay={path}')
         return 1
@@ -146,7 +146,8 @@ def main(argv):
             entry['replay'] = rep
             reproduced = bool(rep.get('pre')) and not rep.get('ok', True)
             if reproduced and isinstance(rep.get('real'), dict):
-                reproduced = bool(rep['real'].get('reproduced'))
+                # None = this instance has no real-filesystem counterpart (stage 1 stands)
+                reproduced = rep['real'].get('reproduced') is not False
             if not reproduced:
                 harness_errors.append(
                     f'{c.name}: counterexample {json.dumps(args)} does not reproduce '
@@ -190,7 +191,7 @@ def main(argv):
                      k['args'], wall=900)
         still = bool(rep.get('pre')) and not rep.get('ok', True)
         if still and isinstance(rep.get('real'), dict):
-            still = bool(rep['real'].get('reproduced'))
+            still = rep['real'].get('reproduced') is not False
         if still:
             print(f'KNOWN-FINDING: property={prop} {k["id"]}: {k["what"]}')
         else:
